@@ -431,7 +431,7 @@ Cands(dt) == Common \cup
            LET lens == {n \in {dt.minlen - 1, dt.minlen, dt.maxlen, dt.maxlen + 1} : 0 <= n /\ n <= 5} IN
            {L(Rep(g, n)) : n \in lens, g \in Good(dt.el)}
            \cup {L(<<e>>) : e \in Cands(dt.el)}
-           \cup {L(<<g, e>>) : g \in Good(dt.el), e \in Cands(dt.el)}
+           \cup {L(<<g, e>>) : g \in Good(dt.el), e \in (Cands(dt.el) \ Common) \cup {Null, Lit("5"), N(24), L(<<>>), Sp("nan")}}
       [] dt.k = "tuple" ->
            LET n == Len(dt.els)
                goods == SeqProd([i \in 1 .. n |-> Good(dt.els[i])]) IN
